@@ -60,11 +60,12 @@ int cmd_thr(const Args& a) {
   std::ofstream os(args(a, "out", "/dev/stdout")); std::vector<long long> progs = argl(a, "progs", "1,2");
   std::map<int, Out> seq; for (int p = 1; p <= 9; ++p) seq[p] = run_program(p, w);
   if (mode == "sched") {
-    std::ifstream in(args(a, "in", "")); std::string line; long long nsched = 0, skip = argi(a, "skip", 0), stride = argi(a, "stride", 1), cnt = 0; int nseg = (int)argi(a, "nseg", 6);
+    std::ifstream in(args(a, "in", "")); std::string line; int ncrash = 0; long long nsched = 0, skip = argi(a, "skip", 0), stride = argi(a, "stride", 1), cnt = 0; int nseg = (int)argi(a, "nseg", 6);
     while (std::getline(in, line)) {
       if (line.empty() || (cnt++ % stride) != skip) continue; JV s = jparse(line); ++nsched;
       std::string what = "\"case\":{\"sched\":" + line + ",\"progs\":" + jints(progs) + "}";
-      guarded(os, what, 60, [&](std::ostream& o) {
+      if (ncrash >= 3) break;    // the runs keep dying: a few Crash events are enough, do not spend a watchdog period on every schedule
+      bool ok = guarded(os, what, 30, [&](std::ostream& o) {
         Rng rp((uint64_t)argi(a, "seed", 1)); World w(rp);   // a FRESH world (same data): the shared container has not been used by anybody yet
         Scheduler sc; for (auto& v : s.a) sc.sched.push_back((int)v.i()); int nt = (int)progs.size(); sc.finished.assign(nt, false); sc.ran.assign(nt, 0); g_sched = &sc;
         std::vector<Out> res(nt); std::vector<std::thread> th;
@@ -73,6 +74,7 @@ int cmd_thr(const Args& a) {
         std::vector<long long> eq; for (int t = 0; t < nt; ++t) eq.push_back(res[t] == seq[(int)progs[t]]);
         o << Ev("Sched").kn("nt", nt).kn("nseg", nseg).kv("progs", jints(progs)).kv("sched", line).kv("eq", jints(eq)).kv("ran", jints(sc.ran)).str() << "\n";
       });
+      if (!ok) ++ncrash;
     }
     fprintf(stderr, "schedules=%lld\n", nsched);
   } else {
